@@ -10,6 +10,8 @@ V = os.path.dirname(os.path.dirname(os.path.abspath(__file__)))
 def rows():
     out = []
     for d in sorted(os.listdir(os.path.join(V, "seeded"))):
+        if not os.path.exists(os.path.join(V, "seeded", d, "meta.json")):
+            continue
         m = json.load(open(os.path.join(V, "seeded", d, "meta.json")))
         def cell(x):
             return re.sub(r"\s+", " ", str(x or "—")).replace("|", "/")
